@@ -20,6 +20,9 @@ LEAVES = [
      [], "bool", {}),
     ("Cache", "complete_iterates_copy", "_handlers/record_manager.py", "RecordManager.async_updates_complete", ("has_call", "listeners.copy", 1),
      [], "bool", {}),
+    # D18 repair: removing a listener that is not registered (set.remove -> KeyError) is caught
+    ("Cache", "remove_listener_catches_keyerror", "_handlers/record_manager.py", "RecordManager.async_remove_listener", ("except_catches", "KeyError"),
+     [], "bool", {}),
     # ---- _services/browser.py (callback side only; the scheduler belongs to C10)
     ("Cache", "enqueue_test", "_services/browser.py", "_ServiceBrowserBase._enqueue_callback", ("if", "state_change", 0),
      [P("state_change is SERVICE_STATE_CHANGE_ADDED", "is_added", "bool"),
